@@ -13,6 +13,8 @@ import time
 
 VERIF = os.path.dirname(os.path.dirname(os.path.abspath(__file__)))
 REPO = os.environ.get("NUCS_REPO", "/repo")
+# where evidence/ and replays/ are written (mutation and seed runs on scratch worktrees redirect it; registered checks never set it)
+OUT = os.environ.get("VERIF_OUT", VERIF)
 LEAN_DIR = os.path.join(VERIF, "lean")
 DRIVER = os.path.join(LEAN_DIR, ".lake", "build", "bin", "driver")
 
@@ -428,7 +430,7 @@ class Report:
             "wall_s": round(time.time() - self.t0, 2),
             "violations": len(self.violations),
         }
-        os.makedirs(os.path.join(VERIF, "evidence"), exist_ok=True)
-        with open(os.path.join(VERIF, "evidence", self.prop_id + ".json"), "w") as f:
+        os.makedirs(os.path.join(OUT, "evidence"), exist_ok=True)
+        with open(os.path.join(OUT, "evidence", self.prop_id + ".json"), "w") as f:
             json.dump(ev, f, indent=1, default=str)
         return ev
